@@ -277,7 +277,7 @@ func c10Run(w *core.W) {
 	w.Family("concatenation-chains")
 	{
 		pre := []string{"x = [1, 2, 3, 4]", "y = x[0:2]", "none = []", "e = x[0:0]", "z = [5] + [6]", "id = (v) -> v"}
-		opsA := []string{"x", "y", "x[1:3]", "none", "[]", "e", "[9]", "z", "x[0:2]"}
+		opsA := []string{"x", "y", "x[1:3]", "none", "[]", "e", "[9]", "z", "x[0:2]", "id(x)", "id(y)"}
 		obs := "[x, y, z, e, none]"
 		chain := func(c []string) bool {
 			ch := strings.Join(c, " + ")
@@ -301,6 +301,19 @@ func c10Run(w *core.W) {
 						if !chain([]string{a, b, c, d}) {
 							return
 						}
+					}
+				}
+			}
+		}
+		// the same with arrays past the sizes at which an implementation might extend in place (chains of 3)
+		preB := []string{"sq = (n) -> {\n  r = []\n  for i <- fromto(0, n) r = r + [i]\n  r\n}", "x = sq(40)", "y = x[0:35]", "none = []", "e = x[0:0]", "z = sq(33) + [1]", "id = (v) -> v"}
+		opsB := []string{"x", "y", "z", "none", "[9]", "x[2:34]"}
+		for _, a := range opsB {
+			for _, b := range opsB {
+				for _, c := range opsB {
+					ch := a + " + " + b + " + " + c
+					if !c10Directed(w, append(append([]string{}, preB...), "r = "+ch, "#r", "q = "+ch, "r == q", obs, "l = "+a+" + [5]", "m = "+a+" + [6]", "[l[#l - 1], m[#m - 1]]", obs)) {
+						return
 					}
 				}
 			}
